@@ -126,7 +126,8 @@ Connection(v) ==
              dpd == IntField(Get(f, "dpd"), 60)
              listens == IF my.c = "ok" /\ my.n \notin Listening THEN Err ELSE Ok(TRUE)       \* never a local address the daemon does not listen on
              prot == f["protect"]
-             entries == IF prot.k # "list" THEN <<Err>>
+             \* (an empty string / empty mapping in place of the list iterates like an empty list: "no protect entries" - the property allows either outcome, observation O-6)
+             entries == IF prot \in {S(""), Mp(<<>>)} THEN <<Either>> ELSE IF prot.k # "list" THEN <<Err>>
                         ELSE [i \in 1..Len(prot.v) |-> ProtectEntry(prot.v[i], Val(my), Val(peer))]
              all == <<my, peer, ma, pa, encr, integ, prf, dh, life, dpd, listens>> \o entries
          IN IF Combine(all) # "ok" THEN [c |-> Combine(all)]
@@ -150,7 +151,8 @@ BaseConn == [my_addr |-> S("192.168.0.1"), peer_addr |-> S("192.168.0.2"), my_au
              encr |-> Lst(Strs(<<"aes128", "aes256">>)), integ |-> Lst(Strs(<<"sha256">>)), prf |-> Lst(Strs(<<"sha512", "sha256">>)), dh |-> Lst(<<S("ecp256"), I(14)>>),
              protect |-> Lst(<<BaseProtect>>)]
 
-Generic == {S("abc"), I(5), NegI(3), B(TRUE), Null, Lst(<<>>), Lst(<<S("x")>>), Mp([x |-> S("y")]), Absent}
+\* ill-typed values of every kind - including the ones a careless "if not value" takes for "nothing given": empty string, zero, false, empty mapping
+Generic == {S("abc"), I(5), NegI(3), B(TRUE), Null, Lst(<<>>), Lst(<<S("x")>>), Mp([x |-> S("y")]), Absent, S(""), I(0), B(FALSE), Mp(<<>>)}
 ConnValues(key) ==
   Generic \cup
   CASE key \in {"my_addr", "peer_addr"} -> {S("192.168.0.2"), S("192.168.0.1"), S("10.9.9.9"), S("alice.example"), S("2001:db8::2"), S("not an address")}
